@@ -25,7 +25,8 @@ def meet(*states):
 
 
 class Flow:
-    def __init__(self, tracked: Set[str], dead_code_reachable: bool = False):
+    def __init__(self, tracked: Set[str], dead_code_reachable: bool = False, routines=None):
+        self.routines = routines or []
         self.tracked = tracked
         self.dead = dead_code_reachable  # conservative variant: code after an exit is treated as reachable
         self.flagged: Set[str] = set()
@@ -108,6 +109,19 @@ class Flow:
                 if new_head == head:
                     return meet(sc, *brks)
                 head = new_head
+        if t in ("call", "callN") and 0 <= n[1] < len(self.routines):
+            # the builder materialises ABI-typed arguments (tmp.set(arg)) in front of the call expression: they are
+            # evaluated first, in order, then the remaining arguments in order (same order as vf/recipe/eval.py)
+            params = self.routines[n[1]]["params"]
+            pairs = list(zip(params, n[2]))
+            order = [a for p_, a in pairs if p_[2] == "abi"] + [a for p_, a in pairs if p_[2] != "abi"] + list(n[2][len(pairs):])
+            for a in order:
+                if isinstance(a, list) and a and a[0] == "ref":
+                    continue
+                s = self.ev(a, s)
+                if s is BOT:
+                    return BOT
+            return s
         # generic: children left to right
         for c in N.children(n):
             s = self.ev(c, s)
@@ -162,7 +176,7 @@ def analyse(recipe, dead_code_reachable: bool = False) -> Dict[Optional[int], Se
         # by-reference parameters and dynamic variables are not tracked
         if k is not None:
             local -= {p[0] for p in recipe["routines"][k]["params"]}
-        fl = Flow(local, dead_code_reachable)
+        fl = Flow(local, dead_code_reachable, recipe.get("routines", []))
         body = recipe["main"] if k is None else recipe["routines"][k]["body"]
         fl.ev(body, frozenset())
         result[k] = fl.flagged
